@@ -19,6 +19,7 @@ from .common import sha
 _installed = False
 _active: "Recorder | None" = None
 _lock = threading.Lock()
+_tls = threading.local()
 
 
 class InjectedFault(Exception):
@@ -192,6 +193,8 @@ def install() -> None:
             time.sleep(d)
         fc = None
         err = None
+        _tls.file = (rel, self.id)
+        _tls.nodes = 0
         try:
             fault = inj.get("raise_in_process_file", {})
             if fault and (fault.get("c") in (None, self.id)) and fault.get("f") == rel:
@@ -200,6 +203,7 @@ def install() -> None:
             if vanish and (vanish.get("c") in (None, self.id)) and vanish.get("f") == rel:
                 with contextlib.suppress(OSError):
                     os.unlink(filename)
+                    rec.emit("EnvChange", f=rel, post="absent")
             fc = orig_pf(self, filename, context, results, rules)
             return fc
         except BaseException as e:  # noqa: BLE001
@@ -259,6 +263,24 @@ def install() -> None:
         return orig_transform(cls, module, results, file_context)
 
     libcst_transformer.LibcstResultTransformer.transform = classmethod(transform)
+
+    # ---- transformer raising at the j-th visited node of a given (codemod, file)
+    import libcst
+
+    orig_on_visit = libcst.CSTTransformer.on_visit
+
+    def on_visit(self, node):
+        rec = _active
+        if rec is not None:
+            fault = rec.inject.get("raise_at_node")
+            cur = getattr(_tls, "file", None)
+            if fault and cur and cur[0] == fault.get("f") and fault.get("c") in (None, cur[1]) and isinstance(self, libcst_transformer.LibcstResultTransformer):
+                _tls.nodes = getattr(_tls, "nodes", 0) + 1
+                if _tls.nodes == fault.get("n", 1):
+                    raise InjectedFault("injected by harness at a visited node")
+        return orig_on_visit(self, node)
+
+    libcst.CSTTransformer.on_visit = on_visit
 
     # ---- Merge
     orig_pr = context.CodemodExecutionContext.process_results
